@@ -391,11 +391,19 @@ pub struct Outcome {
     pub lists: Vec<(Vec<(K, u32)>, Vec<(K, u32)>)>,
     pub results: Vec<Vec<CRes>>,
     pub unobservable: Option<String>,
+    /// first discrepancy of the C01/C02 walkers at quiescence (derived views vs lists), if any
+    pub walk: Option<String>,
 }
 
 impl Outcome {
     pub fn text(&self) -> String {
-        format!("lists={:?} results={:?}{}", self.lists, self.results, self.unobservable.as_ref().map(|u| format!(" UNOBSERVABLE({})", u)).unwrap_or_default())
+        format!(
+            "lists={:?} results={:?}{}{}",
+            self.lists,
+            self.results,
+            self.unobservable.as_ref().map(|u| format!(" UNOBSERVABLE({})", u)).unwrap_or_default(),
+            self.walk.as_ref().map(|u| format!(" WALKERS({})", u)).unwrap_or_default()
+        )
     }
 }
 
@@ -460,15 +468,22 @@ fn outcome_of<F: Flav>(w: &World<F>, results: Vec<Vec<CRes>>, sc: &Scenario) -> 
         .map(|(t, r)| r.into_iter().enumerate().filter(|(i, _)| sc.threads[t][*i].mutating()).map(|(_, x)| x).collect())
         .collect();
     match observe::<F>(w) {
-        Ok(o) => Outcome {
-            lists: o.n.iter().map(|x| (x.out.iter().map(|(k, e)| (*k, e.id)).collect(), x.inn.iter().map(|(k, e)| (*k, e.id)).collect())).collect(),
-            results,
-            unobservable: None,
-        },
+        Ok(o) => {
+            // the C01/C02 walkers at quiescence are part of the outcome: a derived view (degree, predicate,
+            // lookup) that disagrees with the lists is an anomaly unless a sequential order produces it too
+            let walk = check_invariant::<F>(&o);
+            Outcome {
+                lists: o.n.iter().map(|x| (x.out.iter().map(|(k, e)| (*k, e.id)).collect(), x.inn.iter().map(|(k, e)| (*k, e.id)).collect())).collect(),
+                results,
+                unobservable: None,
+                walk: walk.first().map(|m| m.chars().filter(|c| !c.is_ascii_digit()).take(80).collect::<String>()),
+            }
+        }
         Err(p) => Outcome {
             lists: vec![],
             results,
             unobservable: Some(panic_class(&p)),
+            walk: None,
         },
     }
 }
